@@ -376,6 +376,10 @@ struct ScriptBody {
 struct ScriptLog {
     polls: usize,
     polls_after_end: usize,
+    /// did the most recent poll of the scripted body answer Pending
+    last_pending: bool,
+    /// 'c' per chunk handed over, 'B' (pushed by the collector) per blocking task observed
+    trace: String,
 }
 
 #[derive(Debug)]
@@ -394,17 +398,22 @@ impl MessageBody for ScriptBody {
     }
     fn poll_next(mut self: Pin<&mut Self>, cx: &mut Context<'_>) -> Poll<Option<Result<Bytes, ScriptErr>>> {
         self.log.borrow_mut().polls += 1;
+        self.log.borrow_mut().last_pending = false;
         match self.evs.pop_front() {
             None => {
                 self.log.borrow_mut().polls_after_end += 1;
                 Poll::Ready(None)
             }
             Some(Ev::Pending) => {
+                self.log.borrow_mut().last_pending = true;
                 cx.waker().wake_by_ref();
                 Poll::Pending
             }
             Some(Ev::Err) => Poll::Ready(Some(Err(ScriptErr))),
-            Some(Ev::Chunk(b)) => Poll::Ready(Some(Ok(b))),
+            Some(Ev::Chunk(b)) => {
+                self.log.borrow_mut().trace.push('c');
+                Poll::Ready(Some(Ok(b)))
+            }
         }
     }
 }
@@ -439,11 +448,24 @@ struct Collected {
     pendings: usize,
 }
 
-async fn collect_body<B: MessageBody>(body: B) -> Collected {
+/// Occupies the runtime's single blocking-pool thread until the sender is dropped, so that a
+/// `spawn_blocking` issued by the code under test is queued behind it and its `JoinHandle` is
+/// *deterministically* Pending on the first poll (this is how the blocking path is observed).
+fn new_gate() -> std::sync::mpsc::Sender<()> {
+    let (tx, rx) = std::sync::mpsc::channel::<()>();
+    drop(actix_rt::task::spawn_blocking(move || {
+        let _ = rx.recv();
+    }));
+    tx
+}
+
+async fn collect_body<B: MessageBody>(body: B, log: Rc<RefCell<ScriptLog>>) -> Collected {
     let mut body = Box::pin(body);
     let mut chunks = Vec::new();
     let mut pendings = 0usize;
     let mut polls = 0usize;
+    let mut gate = Some(new_gate());
+    let mut awaiting_block = false;
     let fut = async {
         loop {
             let r = std::future::poll_fn(|cx| {
@@ -451,12 +473,28 @@ async fn collect_body<B: MessageBody>(body: B) -> Collected {
                 if polls > 2_000_000 {
                     return Poll::Ready(Err(()));
                 }
+                let before = log.borrow().polls;
                 match body.as_mut().poll_next(cx) {
                     Poll::Pending => {
                         pendings += 1;
+                        let body_polled = log.borrow().polls > before;
+                        let body_pending = body_polled && log.borrow().last_pending;
+                        if body_polled {
+                            awaiting_block = false;
+                        }
+                        if !body_pending && !awaiting_block {
+                            // a blocking task is in flight: note it, let it run, re-arm the gate behind it
+                            log.borrow_mut().trace.push('B');
+                            awaiting_block = true;
+                            drop(gate.take());
+                            gate = Some(new_gate());
+                        }
                         Poll::Pending
                     }
-                    Poll::Ready(x) => Poll::Ready(Ok(x)),
+                    Poll::Ready(x) => {
+                        awaiting_block = false;
+                        Poll::Ready(Ok(x))
+                    }
                 }
             })
             .await;
@@ -482,15 +520,104 @@ async fn collect_body<B: MessageBody>(body: B) -> Collected {
             }
         }
     }
+    drop(gate.take());
     Collected { chunks, end, polls_after_done_ok: stable, pendings }
+}
+
+/// `trace` ('c' = chunk handed over by the scripted body, 'B' = blocking task seen) → one letter
+/// per chunk: I = encoded in place, B = encoded on the blocking pool.  A `Bytes` body never goes
+/// through the script: it is one chunk.
+fn path_of(trace: &str, scripted: bool, nonempty: bool) -> String {
+    if !scripted {
+        return if !nonempty { "-".into() } else if trace.contains('B') { "B".into() } else { "I".into() };
+    }
+    let mut out = String::new();
+    let t: Vec<char> = trace.chars().collect();
+    for (i, ch) in t.iter().enumerate() {
+        if *ch == 'c' {
+            out.push(if t.get(i + 1) == Some(&'B') { 'B' } else { 'I' });
+        }
+    }
+    if out.is_empty() {
+        "-".into()
+    } else {
+        out
+    }
 }
 
 fn run_resp(line: &str) -> CaseResult {
     let line = line.to_owned();
-    block_on_system(async move { run_resp_async(&line).await })
+    // a System whose blocking pool has exactly one thread (see `new_gate`)
+    actix_rt::System::with_tokio_rt(|| {
+        tokio::runtime::Builder::new_current_thread().enable_all().max_blocking_threads(1).build().unwrap()
+    })
+    .block_on(async move { run_resp_async(&line, false).await })
 }
 
-async fn run_resp_async(line: &str) -> CaseResult {
+fn run_wire(line: &str) -> CaseResult {
+    let line = line.to_owned();
+    block_on_system(async move { run_resp_async(&line, true).await })
+}
+
+/// what came back over the in-memory socket
+struct Wire {
+    status: u16,
+    headers: Vec<(String, String)>,
+    /// body bytes after removing the chunked framing (or the bytes up to the close)
+    body: Vec<u8>,
+    chunked: bool,
+    /// chunked: terminating chunk seen; length: exactly that many bytes arrived; neither: closed
+    complete: bool,
+    /// bytes that followed a complete message
+    trailing: usize,
+}
+
+fn parse_wire(buf: &[u8]) -> Option<Wire> {
+    let hend = buf.windows(4).position(|w| w == b"\r\n\r\n")?;
+    let head = std::str::from_utf8(&buf[..hend]).ok()?;
+    let mut lines = head.split("\r\n");
+    let status: u16 = lines.next()?.split(' ').nth(1)?.parse().ok()?;
+    let mut headers = Vec::new();
+    for l in lines {
+        let (k, v) = l.split_once(':')?;
+        headers.push((k.trim().to_ascii_lowercase(), v.trim().to_owned()));
+    }
+    let rest = &buf[hend + 4..];
+    let chunked = headers.iter().any(|(k, v)| k == "transfer-encoding" && v.to_ascii_lowercase().contains("chunked"));
+    let cl: Option<usize> = headers.iter().find(|(k, _)| k == "content-length").and_then(|(_, v)| v.parse().ok());
+    let (body, complete, trailing) = if chunked {
+        let mut out = Vec::new();
+        let mut i = 0usize;
+        let mut complete = false;
+        loop {
+            let Some(e) = rest[i..].windows(2).position(|w| w == b"\r\n") else { break };
+            let Ok(sz) = usize::from_str_radix(std::str::from_utf8(&rest[i..i + e]).unwrap_or("!").trim(), 16) else { break };
+            i += e + 2;
+            if sz == 0 {
+                complete = rest[i..].starts_with(b"\r\n");
+                if complete {
+                    i += 2;
+                }
+                break;
+            }
+            if i + sz + 2 > rest.len() {
+                out.extend_from_slice(&rest[i..rest.len().min(i + sz)]);
+                i = rest.len();
+                break;
+            }
+            out.extend_from_slice(&rest[i..i + sz]);
+            i += sz + 2;
+        }
+        (out, complete, rest.len() - i.min(rest.len()))
+    } else if let Some(n) = cl {
+        (rest[..n.min(rest.len())].to_vec(), rest.len() >= n, rest.len().saturating_sub(n))
+    } else {
+        (rest.to_vec(), true, 0)
+    };
+    Some(Wire { status, headers, body, chunked, complete, trailing })
+}
+
+async fn run_resp_async(line: &str, wire: bool) -> CaseResult {
     let ae: Option<Vec<String>> = match kv(line, "ae") {
         None | Some("-") => None,
         Some(h) => Some(h.split('|').map(unplus).collect()),
@@ -499,6 +626,7 @@ async fn run_resp_async(line: &str) -> CaseResult {
     let hce = opt_val(line, "hce");
     let hvary = opt_val(line, "hvary");
     let ct = opt_val(line, "ct");
+    let hcl = opt_val(line, "hcl");
     let kind = kv(line, "kind").unwrap_or("full").to_owned();
     let toks = parse_toks(kv(line, "ev").unwrap_or(""));
     let total: usize = toks.iter().map(|t| if let Tok::Sz(n) = t { *n } else { 0 }).sum();
@@ -535,11 +663,11 @@ async fn run_resp_async(line: &str) -> CaseResult {
     let handler_body: Vec<u8> = written.iter().flat_map(|b| b.iter().copied()).collect();
     let log = Rc::new(RefCell::new(ScriptLog::default()));
 
-    let spec = Rc::new((st, hce.clone(), hvary.clone(), ct.clone(), kind.clone(), bytes.clone(), evs, log.clone()));
-    let app = test::init_service(App::new().wrap(Compress::default()).default_service(web::to(move || {
+    let spec = Rc::new((st, hce.clone(), hvary.clone(), ct.clone(), kind.clone(), bytes.clone(), evs, log.clone(), hcl.clone()));
+    let handler = move || {
         let spec = spec.clone();
         async move {
-            let (st, hce, hvary, ct, kind, bytes, evs, log) = &*spec;
+            let (st, hce, hvary, ct, kind, bytes, evs, log, hcl) = &*spec;
             let mut b = HttpResponse::build(StatusCode::from_u16(*st).unwrap());
             if let Some(v) = ct {
                 b.insert_header((header::CONTENT_TYPE, v.as_str()));
@@ -550,6 +678,9 @@ async fn run_resp_async(line: &str) -> CaseResult {
             if let Some(v) = hvary {
                 b.insert_header((header::VARY, v.as_str()));
             }
+            if let Some(v) = hcl {
+                b.insert_header((header::CONTENT_LENGTH, v.as_str()));
+            }
             match kind.as_str() {
                 "none" => b.body(actix_web::body::None::new()).map_into_boxed_body(),
                 "full" => b.body(bytes.clone()).map_into_boxed_body(),
@@ -559,8 +690,11 @@ async fn run_resp_async(line: &str) -> CaseResult {
                 _ => b.body(ScriptBody { size: BodySize::Stream, evs: evs.clone(), log: log.clone() }).map_into_boxed_body(),
             }
         }
-    })))
-    .await;
+    };
+    if wire {
+        return run_wire_async(line, handler, &ae, st, &hce, &hvary, &ct, &kind, &handler_body, total).await;
+    }
+    let app = test::init_service(App::new().wrap(Compress::default()).default_service(web::to(handler))).await;
 
     let mut req = test::TestRequest::get().uri("/x");
     if let Some(lines) = &ae {
@@ -579,7 +713,7 @@ async fn run_resp_async(line: &str) -> CaseResult {
     let (_, resp) = res.into_parts();
     let (_, body) = resp.into_parts();
     let size = body.size();
-    let col = collect_body(body).await;
+    let col = collect_body(body, log.clone()).await;
     let raw: Vec<u8> = col.chunks.iter().flat_map(|b| b.iter().copied()).collect();
 
     // did the middleware encode?  (the handler's own Content-Encoding, if any, is kept as is)
@@ -606,13 +740,15 @@ async fn run_resp_async(line: &str) -> CaseResult {
         let lens: Vec<String> = col.chunks.iter().map(|c| c.len().to_string()).collect();
         format!("chunks={} {}", if lens.is_empty() { "-".into() } else { lens.join(",") }, show_sum(&raw))
     };
+    let path = if encoded { path_of(&log.borrow().trace, is_script, !bytes.is_empty()) } else { "-".to_owned() };
     let output = format!(
-        "st={} ce={} vary={} size={} {} end={}",
+        "st={} ce={} vary={} size={} {} path={} end={}",
         status,
         show_list(&ce),
         show_list(&vary),
         show_size(size),
         body_str,
+        path,
         col.end
     );
 
@@ -752,6 +888,267 @@ async fn run_resp_async(line: &str) -> CaseResult {
     }
     let nontrivial = status == 406 || !handler_body.is_empty();
     CaseResult { output, fail: fails.into_iter().next(), nontrivial, tags }
+}
+
+#[allow(clippy::too_many_arguments)]
+async fn run_wire_async<H, Fut>(
+    _line: &str,
+    handler: H,
+    ae: &Option<Vec<String>>,
+    st: u16,
+    hce: &Option<String>,
+    hvary: &Option<String>,
+    ct: &Option<String>,
+    kind: &str,
+    handler_body: &[u8],
+    total: usize,
+) -> CaseResult
+where
+    H: Fn() -> Fut + Clone + 'static,
+    Fut: std::future::Future<Output = HttpResponse> + 'static,
+{
+    use actix_service::{Service as _, ServiceFactory as _};
+    use tokio::io::{AsyncReadExt, AsyncWriteExt};
+    let fac = actix_http::HttpService::build().h1(actix_service::map_config(
+        App::new().wrap(Compress::default()).default_service(web::to(handler)),
+        |_| actix_web::dev::AppConfig::default(),
+    ));
+    let svc = match fac.new_service(()).await {
+        Ok(s) => s,
+        Err(_) => return CaseResult::ok("service-init-failed".into()).fail("wire-init", "new_service failed".into()),
+    };
+    let (mut client, server) = tokio::io::duplex(1 << 16);
+    let mut reqb = String::from("GET /x HTTP/1.1\r\nhost: t\r\nconnection: close\r\n");
+    if let Some(lines) = ae {
+        for l in lines {
+            reqb.push_str(&format!("accept-encoding: {}\r\n", l));
+        }
+    }
+    reqb.push_str("\r\n");
+    let conn = svc.call((server, None));
+    let io = async {
+        let _ = client.write_all(reqb.as_bytes()).await;
+        let mut buf = Vec::new();
+        let _ = client.read_to_end(&mut buf).await;
+        buf
+    };
+    let joined = tokio::time::timeout(Duration::from_secs(60), async {
+        let (_, buf) = tokio::join!(conn, io);
+        buf
+    })
+    .await;
+    let buf = match joined {
+        Ok(b) => b,
+        Err(_) => return CaseResult::ok("hang".into()).fail("no-termination", "connection did not finish".into()),
+    };
+    let Some(w) = parse_wire(&buf) else {
+        return CaseResult::ok("unparsable".into()).fail("wire-unparsable", format!("{} bytes", buf.len()));
+    };
+    let all = |n: &str| -> Vec<String> { w.headers.iter().filter(|(k, _)| k == n).map(|(_, v)| v.clone()).collect() };
+    let ce = all("content-encoding");
+    let vary = all("vary");
+    let cl = all("content-length");
+    let encoded = hce.is_none() && w.status != 406 && !ce.is_empty();
+    let mut fails: Vec<(String, String)> = Vec::new();
+    let body_str = if encoded {
+        match decode(&ce[0], &w.body) {
+            Ok(d) => {
+                if d != handler_body {
+                    fails.push(("decoded-body-differs".into(), format!("coding {} decoded {} bytes, handler wrote {}", ce[0], d.len(), handler_body.len())));
+                }
+                show_sum(&d)
+            }
+            Err(e) => {
+                fails.push(("undecodable".into(), e));
+                "n=! sum=!".into()
+            }
+        }
+    } else {
+        show_sum(&w.body)
+    };
+    let output = format!(
+        "st={} ce={} vary={} te={} cl={} {} end={}",
+        w.status,
+        show_list(&ce),
+        show_list(&vary),
+        if w.chunked { "chunked" } else { "-" },
+        show_list(&cl),
+        body_str,
+        if w.complete { "done" } else { "trunc" }
+    );
+    // ---- oracle: what the peer can see
+    if !w.complete {
+        fails.push(("wire-incomplete".into(), "message framing not completed before close".into()));
+    }
+    if w.trailing > 0 {
+        fails.push(("wire-trailing-bytes".into(), format!("{} bytes after the message", w.trailing)));
+    }
+    if cl.len() > 1 || (w.chunked && !cl.is_empty()) {
+        fails.push(("stale-length".into(), format!("content-length {:?} with chunked={}", cl, w.chunked)));
+    }
+    if let Some(v) = cl.first() {
+        if v.parse::<usize>().ok() != Some(w.body.len()) {
+            fails.push(("stale-length".into(), format!("content-length {} but {} body bytes sent", v, w.body.len())));
+        }
+    }
+    if encoded {
+        if let Some(lines) = ae {
+            let rfc = rfc_parse(lines);
+            if !rfc.malformed && !rfc_permits(&rfc, &ce[0].to_ascii_lowercase()) {
+                fails.push(("coding-not-permitted".into(), format!("Accept-Encoding {:?} does not permit '{}'", lines, ce[0])));
+            }
+        } else {
+            fails.push(("encoded-without-accept-encoding".into(), ce[0].clone()));
+        }
+        if matches!(st, 204 | 206) || total == 0 && kind != "stream" || kind == "none" {
+            fails.push(("must-not-encode".into(), format!("status {} re-encoded", st)));
+        }
+        if let Some(v) = hvary {
+            if vary.first() != Some(v) {
+                fails.push(("vary-lost".into(), format!("{:?}", vary)));
+            }
+        }
+    } else if w.status != 406 {
+        if w.body != handler_body {
+            fails.push(("passthrough-body-changed".into(), format!("{} bytes out, {} in", w.body.len(), handler_body.len())));
+        }
+        let want_ce: Vec<String> = hce.iter().cloned().collect();
+        if ce != want_ce {
+            fails.push(("passthrough-head-changed".into(), format!("ce {:?}→{:?}", want_ce, ce)));
+        }
+    }
+    let _ = ct;
+    let mut tags = vec![format!(
+        "wire:{}",
+        if w.status == 406 { "406".to_owned() } else if encoded { format!("enc:{}", ce[0]) } else { "pass".to_owned() }
+    )];
+    tags.push(format!("wire-framing:{}", if w.chunked { "chunked" } else if !cl.is_empty() { "length" } else { "close" }));
+    CaseResult { output, fail: fails.into_iter().next(), nontrivial: w.status == 406 || !handler_body.is_empty(), tags }
+}
+
+// ---------------------------------------------------------------------------------------------
+// req
+
+struct ScriptStream {
+    evs: VecDeque<Ev>,
+}
+
+impl futures_core::Stream for ScriptStream {
+    type Item = Result<Bytes, actix_web::error::PayloadError>;
+    fn poll_next(mut self: Pin<&mut Self>, cx: &mut Context<'_>) -> Poll<Option<Self::Item>> {
+        match self.evs.pop_front() {
+            None => Poll::Ready(None),
+            Some(Ev::Pending) => {
+                cx.waker().wake_by_ref();
+                Poll::Pending
+            }
+            Some(Ev::Err) => Poll::Ready(Some(Err(actix_web::error::PayloadError::Incomplete(None)))),
+            Some(Ev::Chunk(b)) => Poll::Ready(Some(Ok(b))),
+        }
+    }
+}
+
+fn known_coding(ce: &str) -> Option<&'static str> {
+    match ce.trim().to_ascii_lowercase().as_str() {
+        "gzip" => Some("gzip"),
+        "br" => Some("br"),
+        "deflate" => Some("deflate"),
+        "zstd" => Some("zstd"),
+        _ => None,
+    }
+}
+
+fn run_req(line: &str) -> CaseResult {
+    let line = line.to_owned();
+    block_on_system(async move { run_req_async(&line).await })
+}
+
+async fn run_req_async(line: &str) -> CaseResult {
+    use actix_web::dev::Service;
+    let n: usize = kv(line, "n").and_then(|s| s.parse().ok()).unwrap_or(0);
+    let orig = gen_body(kv(line, "body").unwrap_or("c0"), n);
+    let ce = opt_val(line, "ce");
+    let bad = kv(line, "bad") == Some("1");
+    let coding = ce.as_deref().and_then(known_coding);
+    let sent: Vec<u8> = match coding {
+        Some(c) if !bad => encode(c, &orig),
+        _ => orig.clone(),
+    };
+    let sent = Bytes::from(sent);
+    let toks = parse_toks(kv(line, "ev").unwrap_or(""));
+    let mut evs = VecDeque::new();
+    let mut off = 0usize;
+    let mut has_err = false;
+    for t in &toks {
+        match t {
+            Tok::Sz(k) => {
+                let end = (off + k).min(sent.len());
+                evs.push_back(Ev::Chunk(sent.slice(off..end)));
+                off = end;
+            }
+            Tok::P => evs.push_back(Ev::Pending),
+            Tok::E => {
+                has_err = true;
+                evs.push_back(Ev::Err)
+            }
+        }
+    }
+    if off < sent.len() {
+        evs.push_back(Ev::Chunk(sent.slice(off..)));
+    }
+    let app = test::init_service(
+        App::new()
+            .app_data(web::PayloadConfig::new(64 << 20))
+            .default_service(web::to(|body: web::Bytes| async move { HttpResponse::Ok().body(body) })),
+    )
+    .await;
+    let payload = actix_http::Payload::Stream { payload: Box::pin(ScriptStream { evs }) as actix_http::BoxedPayloadStream };
+    let mut req = actix_http::Request::with_payload(payload);
+    req.head_mut().method = actix_web::http::Method::POST;
+    if let Some(v) = &ce {
+        req.head_mut().headers_mut().insert(header::CONTENT_ENCODING, header::HeaderValue::from_str(v).unwrap());
+    }
+    let res = match tokio::time::timeout(Duration::from_secs(60), app.call(req)).await {
+        Err(_) => {
+            return CaseResult::ok("hang".into()).fail("request-hang", "extractor never completed".into());
+        }
+        Ok(Err(e)) => {
+            return CaseResult::ok(format!("svc-error {}", e.as_response_error().status_code().as_u16()));
+        }
+        Ok(Ok(r)) => r,
+    };
+    let status = res.status().as_u16();
+    let got = if status == 200 { test::read_body(res).await.to_vec() } else { vec![] };
+    let output = if status == 200 { format!("st=200 {}", show_sum(&got)) } else { format!("st={}", status) };
+    let mut r = CaseResult::ok(output);
+    r.nontrivial = coding.is_some() && !bad && !has_err && n > 0;
+    r.tags.push(format!(
+        "req:{}",
+        if bad { "corrupt".to_owned() } else { coding.map(|c| c.to_owned()).unwrap_or_else(|| "raw".into()) }
+    ));
+    if coding.is_some() && !bad {
+        let big = toks.iter().any(|t| matches!(t, Tok::Sz(k) if *k >= 2049)) || (toks.is_empty() && sent.len() >= 2049);
+        r.tags.push(format!("reqpath:{}", if big { "blocking" } else { "in-place" }));
+    }
+    // oracle
+    if has_err {
+        if status == 200 {
+            r = r.fail("request-error-swallowed", "payload error, yet the handler got a complete body".into());
+        }
+    } else if bad && coding.is_some() {
+        if status == 200 && got != orig {
+            // a corrupt stream must not be delivered as a successful, different body
+            r = r.fail("corrupt-accepted", format!("undecodable {} payload delivered as {} bytes", coding.unwrap(), got.len()));
+        }
+    } else if status != 200 {
+        r = r.fail("request-rejected", format!("intact payload (ce={:?}) answered with {}", ce, status));
+    } else if got != orig {
+        r = r.fail(
+            "request-body-differs",
+            format!("ce={:?}: handler got {} bytes (sum {}), original {} bytes (sum {})", ce, got.len(), adler(&got), orig.len(), adler(&orig)),
+        );
+    }
+    r
 }
 
 // ---------------------------------------------------------------------------------------------
@@ -914,6 +1311,102 @@ fn gen(ctx: &Ctx) -> Vec<String> {
             }
         }
     }
+    // ---- wire: the same app behind HttpService::h1 on an in-memory socket
+    for ae in ["gzip", "br", "deflate", "zstd", "identity", "-", "gzip;q=0,_*;q=0.5", "identity;q=0"] {
+        for (kind, ev) in [("full", "3000"), ("full", "0"), ("sized", "10,p,1024,7"), ("stream", "10,p,1024,p,p,7"), ("stream", "-"), ("none", "-")] {
+            for hcl in ["-", "5"] {
+                for st in [200u16, 206, 404] {
+                    if st != 200 && hcl == "5" {
+                        continue;
+                    }
+                    cases.push(format!("wire ae={ae} st={st} hce=- hvary=- ct=- hcl={hcl} kind={kind} body=c6 ev={ev}"));
+                }
+            }
+        }
+    }
+    for ae in ["gzip", "br"] {
+        cases.push(format!("wire ae={ae} st=200 hce=gzip hvary=origin ct=text/plain hcl=9999 kind=full body=r6 ev=70000"));
+        cases.push(format!("wire ae={ae} st=200 hce=- hvary=origin ct=image/png hcl=1 kind=stream body=r6 ev=70000,p,5"));
+        cases.push(format!("wire ae={ae} st=200 hce=- hvary=origin ct=text/plain hcl=70005 kind=stream body=r6 ev=70000,p,5"));
+    }
+    for _ in 0..ctx.budget(120) {
+        let ae = if rng.chance(1, 10) { "-".to_owned() } else { gen_ae(&mut rng) };
+        let st = *rng.pick::<u16>(&[200, 200, 200, 201, 206, 404, 500]);
+        let hce = *rng.pick::<&str>(&["-", "-", "-", "-", "gzip", "x-custom"]);
+        let hcl = *rng.pick::<&str>(&["-", "-", "0", "7", "100000"]);
+        let kind = *rng.pick::<&str>(&["full", "sized", "stream", "stream", "none"]);
+        let nchunks = if kind == "full" { 1 } else { rng.range(0, 5) };
+        let mut ev: Vec<String> = Vec::new();
+        for _ in 0..nchunks {
+            while rng.chance(1, 4) {
+                ev.push("p".into());
+            }
+            ev.push(match rng.below(4) {
+                0 => rng.range(1, 3).to_string(), // no empty chunks on the wire: pass-through + empty chunk is C02's F2
+                1 => rng.pick::<usize>(&[1023, 1024, 1025]).to_string(),
+                2 => rng.range(1, 3000).to_string(),
+                _ => rng.range(3000, 90000).to_string(),
+            });
+        }
+        let body = format!("{}{}", if rng.chance(1, 3) { 'r' } else { 'c' }, rng.below(50));
+        cases.push(format!(
+            "wire ae={ae} st={st} hce={hce} hvary=- ct={} hcl={hcl} kind={kind} body={body} ev={}",
+            rng.pick(CTS),
+            if ev.is_empty() { "-".to_owned() } else { ev.join(",") }
+        ));
+    }
+    // ---- req: every coding × sizes × chunkings of the compressed stream
+    for ce in ["gzip", "br", "deflate", "zstd", "identity", "-", "GZIP", "_Br_", "x-foo"] {
+        for &n in &[0usize, 1, 100, 2048, 2049, 5000, 70000] {
+            for body in ["c4", "r4"] {
+                for ev in ["-", "1,1,1,p,5", "2048,2049,2050", "0,p,p,7,0"] {
+                    if n > 5000 && ev != "-" && ev != "2048,2049,2050" {
+                        continue;
+                    }
+                    cases.push(format!("req ce={ce} body={body} n={n} ev={ev} j={}", n % 3));
+                }
+            }
+        }
+    }
+    for (k, ce) in ["gzip", "br", "deflate", "zstd"].into_iter().enumerate() {
+        cases.push(format!("req ce={ce} bad=1 body=c4 n=300 ev=100 j=0"));
+        cases.push(format!("req ce={ce} body=c4 n=3000 ev=10,e j=0"));
+        // 1 MiB: two per coding in thorough, alternating in quick
+        if thorough || k % 2 == 0 {
+            cases.push(format!("req ce={ce} body=r5 n={} ev=- j=2", 1usize << 20));
+        }
+        if thorough || k % 2 == 1 {
+            cases.push(format!("req ce={ce} body=c5 n={} ev={} j=1,0,2", 1usize << 20, vec!["4096"; 40].join(",")));
+        }
+    }
+    for _ in 0..ctx.budget(300) {
+        let ce = *rng.pick::<&str>(&["gzip", "br", "deflate", "zstd", "gzip", "br", "identity", "-", "Gzip", "x-foo"]);
+        let n = match rng.below(6) {
+            0 => rng.range(0, 10),
+            1 | 2 => rng.range(10, 3000),
+            3 | 4 => rng.range(3000, 40000),
+            _ => rng.range(40000, 300000),
+        };
+        let mut ev: Vec<String> = Vec::new();
+        for _ in 0..rng.below(7) {
+            while rng.chance(1, 4) {
+                ev.push("p".into());
+            }
+            ev.push(match rng.below(5) {
+                0 => rng.range(0, 3).to_string(),
+                1 => rng.pick::<usize>(&[2047, 2048, 2049, 2050]).to_string(),
+                2 | 3 => rng.range(1, 600).to_string(),
+                _ => rng.range(2049, 20000).to_string(),
+            });
+        }
+        let body = format!("{}{}", if rng.chance(1, 2) { 'r' } else { 'c' }, rng.below(50));
+        let j: Vec<String> = (0..rng.below(4)).map(|_| rng.below(3).to_string()).collect();
+        cases.push(format!(
+            "req ce={ce} body={body} n={n} ev={} j={}",
+            if ev.is_empty() { "-".to_owned() } else { ev.join(",") },
+            if j.is_empty() { "-".to_owned() } else { j.join(",") }
+        ));
+    }
     // ---- resp: random
     for _ in 0..ctx.budget(900) {
         let ae = if rng.chance(1, 10) { "-".to_owned() } else { gen_ae(&mut rng) };
@@ -959,6 +1452,8 @@ fn run(line: &str) -> CaseResult {
     match line.split_ascii_whitespace().next() {
         Some("neg") => run_neg(line),
         Some("resp") => run_resp(line),
+        Some("req") => run_req(line),
+        Some("wire") => run_wire(line),
         _ => CaseResult::ok("bad-case".into()),
     }
 }
